@@ -349,8 +349,11 @@ pub fn write_object_identifier(oid: &[u8], s: &mut dyn Write) ->RdpResult<()> {
 /// ```
 pub fn read_numeric_string(minimum: usize, s: &mut dyn Read) -> RdpResult<Vec<u8>> {
     let length = read_length(s)?;
-    let mut result = vec![0 as u8; length as usize + minimum + 1];
-    result.read(s)?;
+    // two digits are packed per byte
+    let mut result = vec![0 as u8; (length as usize + minimum + 1) / 2];
+    if result.len() > 0 {
+        result.read(s)?;
+    }
     Ok(result)
 }
 
@@ -362,7 +365,7 @@ pub fn write_numeric_string(string: &[u8], minimum: usize,  s: &mut dyn Write) -
 
     write_length(length as u16)?.write(s)?;
 
-    for i in 0..string.len() {
+    for i in (0..string.len()).step_by(2) {
         let mut c1 = string[i];
         let mut c2 = if i + 1 < string.len() {
             string[i+1]
